@@ -427,11 +427,15 @@ def splice(body, loop_specs, entry, body_start, body_end):
     return body
 
 
-def generate(unit, cache):
+def generate(unit, cache, vacuity=False):
     """Build the Verus input text of a unit from its template and the current /repo/src.
-    Returns dict(text, fns: {as_name: {sig, spec, start_line, end_line, src_sha, ...}}, rules, errors)."""
-    if unit in cache:
-        return cache[unit]
+    Returns dict(text, fns: {as_name: {sig, spec, start_line, end_line, src_sha, ...}}, rules, errors).
+    vacuity=True appends `ensures false` to every extracted function (each must then be REJECTED)."""
+    # vacuity: False, or the name of the ONE extracted function that gets `ensures false` (a callee with
+    # `ensures false` would make its callers verify trivially, so the pass is per function)
+    ckey = (unit, vacuity)
+    if ckey in cache:
+        return cache[ckey]
     path = units()[unit]
     raw = open(path).read()
     # includes
@@ -450,7 +454,7 @@ def generate(unit, cache):
         if ms:
             kv = parse_kv(ms.group(1))
             try:
-                other = generate(kv["unit"], cache)
+                other = generate(kv["unit"], cache, False)
                 f = other["fns"].get(kv["fn"])
                 if f is None:
                     raise ExtractError("stub %s not generated in unit %s" % (kv["fn"], kv["unit"]))
@@ -552,9 +556,12 @@ def generate(unit, cache):
             retn = (" -> (%s: %s)" % (kv.get("retname", "r"), ret2)) if ret2 else ""
             sig_out = "%s fn %s%s(%s)%s" % (vis, name, generics, params2, retn)
             spec = "\n".join(sect["spec"])
+            spec_emit = spec
+            if vacuity and vacuity == name:
+                spec_emit = (spec.rstrip() + "\n        false,") if "ensures" in spec else (spec.rstrip() + "\n    ensures\n        false,")
             out.append(sig_out)
-            if spec.strip():
-                out.append(spec.rstrip())
+            if spec_emit.strip():
+                out.append(spec_emit.rstrip())
             out.append("{" + body3 + "}")
             # line accounting: out entries may contain newlines
             fns[name] = {"sig": sig_out, "spec": spec, "src": kv["file"], "src_fn": (kv.get("scope", "") + " :: " + kv["fn"]).strip(" :"),
@@ -567,29 +574,45 @@ def generate(unit, cache):
     text_out = "\n".join(out)
     # proof fns / other verified items written directly in the template also get line ranges (for attribution)
     res = {"text": text_out, "fns": fns, "rules": rules, "errors": errors}
-    cache[unit] = res
+    cache[ckey] = res
     return res
 
 
 def item_ranges(text):
-    """(name, start_line, end_line) of every `fn` item in the generated text (for error attribution)."""
+    """(name, start_line, end_line) of every `fn` item in the generated text (for error attribution).
+    The body brace is the first `{` at paren depth 0 that starts its line (spec clauses such as
+    `match r { .. }` contain braces of their own); balanced blocks met before it are skipped."""
     masked = mask_code(text)
     items = []
     for m in re.finditer(r"\bfn\s+(\w+)", masked):
         s = m.start()
         pd = 0
         b = None
-        for k in range(m.end(), len(masked)):
+        first = None
+        k = m.end()
+        n = len(masked)
+        while k < n:
             ch = masked[k]
             if ch in "([":
                 pd += 1
             elif ch in ")]":
                 pd -= 1
             elif ch == "{" and pd == 0:
-                b = k
-                break
+                if first is None:
+                    first = k
+                ls = masked.rfind("\n", 0, k) + 1
+                if masked[ls:k].strip() == "":
+                    b = k
+                    break
+                try:
+                    k = match_close(masked, k)
+                except ExtractError:
+                    break
             elif ch == ";" and pd == 0:
                 break
+            k += 1
+        if b is None:
+            b = first
         if b is None:
             continue
         try:
@@ -728,6 +751,43 @@ def run(scratch, obls, jobs, log, tier="quick"):
                 results[key] = dict(base, verdict="undecided", reason="tool: " + why[:300])
             else:
                 results[key] = dict(base, verdict="accepted", reason="")
+    if tier == "thorough":
+        vac = {}
+        jobs_v = []
+        for unit in by_unit:
+            base = cache.get((unit, False))
+            if not base:
+                continue
+            for n, f in base["fns"].items():
+                if "src" in f:
+                    jobs_v.append((unit, n))
+
+        def do_v(job):
+            unit, n = job
+            try:
+                g = generate(unit, {}, n)
+                r = run_unit(scratch, unit, g, log, suffix="__vacuity_" + n)
+            except Exception as ex:
+                return job, None, str(ex)
+            rejected = False
+            for (nm, s_, t_) in item_ranges(g["text"]):
+                if nm == n:
+                    rejected = any(e["line"] is not None and s_ <= e["line"] <= t_ for e in r["errors"])
+            return job, rejected, None
+
+        with ThreadPoolExecutor(max_workers=max(1, min(jobs, 12))) as ex:
+            vouts = list(ex.map(do_v, jobs_v))
+        for (unit, n), rejected, err in vouts:
+            vac.setdefault(unit, {"rejected_with_ensures_false": [], "NOT_rejected": []})
+            (vac[unit]["rejected_with_ensures_false"] if rejected else vac[unit]["NOT_rejected"]).append(n if not err else n + ": " + err)
+            if not rejected:
+                for o in by_unit[unit]:
+                    if o["name"] == n:
+                        key = (o["id"], "fa")
+                        if results.get(key, {}).get("verdict") == "accepted":
+                            results[key]["verdict"] = "undecided"
+                            results[key]["reason"] = "vacuity guard: the function verifies even with `ensures false` (contradictory requires)"
+        meta["extraction"]["verus_vacuity_pass"] = vac
     return results, meta
 
 
